@@ -50,6 +50,14 @@ CLAIMED = {
         "Tied to /repo by broker runs with bid != ask and rates in [0,1], and the fee models alone on random considerations.",
    note=TRUST + "BacktestDataHandler returns (bid, bid); the property is checked at the broker/data-handler interface with a stub whose bid != ask.",
    design="7/C05", technique="Coq proof by induction over the executed order list; Q arithmetic lemmas + correspondence check"),
+ 'C09': dict(
+   text="Machine-checked theorems (props/C09.v): the recorded allocation covers exactly held + universe + alpha keys (zero where alpha is "
+        "silent); the order list is exactly target - current per target asset and nothing else, ascending (insertion sort proved a sorted "
+        "permutation, string order proved transitive), without zero or duplicate entries; current + orders = target for every asset; a zero "
+        "weight sizes to zero under both sizers (liquidation). Tied to /repo by 1-4 successive rebalances on a real SimulatedBroker with "
+        "real PCM and sizers (orders filled at the next open, holdings compared with the target), each PCM call replayed on the model.",
+   note=TRUST + "'holdings equal the target after the fills' composes this with C04 (every order filled once, in full) and C02 (holdings = net of fills); the composition is exercised end-to-end by the correspondence runs.",
+   design="7/C09", technique="Coq proof (permutation / sortedness / association-list lemmas) + model/implementation correspondence check"),
  'C10': dict(
    text="Machine-checked theorems over rationals (props/C10.v): for every equity, weight >= 0 and price > 0 the target is the whole number "
         "with q*price + fees <= share < (q+1)*price + fees; q >= 0 when fees fit (c + t <= 1); the whole target costs at most E x "
